@@ -225,6 +225,64 @@ func c18Agreements(r *Run) {
 			r.check(!writesAlone || (offending == "" && nMissing >= 0), "C18.R8", "operator-value-without-avs-value", vv.pos(vv.Decl), "genesis validation demands an AVS value record only for an operator value record that is not zero", "ValidateOperatorUSDValues rejects at "+offending+" every operator value record whose AVS has no value record, but InitOperatorUSDValue (opt-in) writes the operator's zero record without an AVS record: the export taken between an opt-in and the AVS's first epoch end fails the module's own validation")
 		}
 	}
+	// ---- recorded slash amounts: the execution appends an entry for every pool it visits and for every
+	// undelegation it touches, with whatever the slashed fraction rounds down to - zero for small amounts. Genesis
+	// validation may therefore refuse negative amounts only.
+	{
+		sv := w.View("x/operator/keeper", "Keeper.SlashAssets")
+		uv := w.View("x/operator/keeper", "SlashFromUndelegation")
+		vv := w.View("x/operator/types", "GenesisState.ValidateSlashStates")
+		if sv == nil || uv == nil || vv == nil {
+			r.bad("C18.R8", "slash-record|zero-amount-admitted", "-", "anchor", "SlashAssets, SlashFromUndelegation or ValidateSlashStates not found")
+		} else {
+			// does the live code filter zero amounts? SlashFromUndelegation returns its entry with whatever the
+			// fraction rounded down to, unless the return sits under a positivity test of that amount
+			filters := true
+			ast.Inspect(uv.Decl.Body, func(n ast.Node) bool {
+				rs, ok := n.(*ast.ReturnStmt)
+				if !ok || len(rs.Results) != 1 || isNilIdent(uv.Info, rs.Results[0]) {
+					return true
+				}
+				pos := false
+				for _, f := range uv.FactsAt(rs, false) {
+					if cc, isC := stripParens(f.Atom).(*ast.CallExpr); isC && strings.Contains(strings.ToLower(exprString(cc.Fun)), "slashamount") && ((strings.HasSuffix(exprString(cc.Fun), ".IsPositive") && f.Truth) || (strings.HasSuffix(exprString(cc.Fun), ".IsZero") && !f.Truth)) {
+						pos = true
+					}
+				}
+				if !pos {
+					filters = false
+				}
+				return true
+			})
+			_ = sv
+			offending := ""
+			ast.Inspect(vv.Decl.Body, func(n ast.Node) bool {
+				rs, ok := n.(*ast.ReturnStmt)
+				if !ok || !returnsErr(vv, rs) {
+					return true
+				}
+				ifs, isIf := vv.parent(vv.parent(rs)).(*ast.IfStmt)
+				if !isIf {
+					return true
+				}
+				for _, d := range disjuncts(ifs.Cond) {
+					c, isC := stripParens(d).(*ast.CallExpr)
+					if !isC {
+						continue
+					}
+					fn := exprString(c.Fun)
+					if !(strings.Contains(fn, "slashFromUndelegation.Amount.") || strings.Contains(fn, "slashFromAssetsPool.Amount.")) {
+						continue
+					}
+					if strings.HasSuffix(fn, ".LTE") || strings.HasSuffix(fn, ".IsZero") || (strings.HasSuffix(fn, ".LT") && len(c.Args) == 1 && !strings.Contains(exprString(c.Args[0]), "(0)")) {
+						offending = vv.pos(rs) + " (" + exprString(d) + ")"
+					}
+				}
+				return true
+			})
+			r.check(filters || offending == "", "C18.R8", "slash-record|zero-amount-admitted", vv.pos(vv.Decl), "genesis validation accepts the zero amounts that a slash of small pools and undelegations records", "ValidateSlashStates rejects a recorded amount of zero at "+offending+", but SlashAssets records every pool it visits and every undelegation it touches with whatever the fraction rounds down to: after a slash that meets a small amount the module's export fails its own validation")
+		}
+	}
 	// ---- dogfood validator set bound
 	if dv := w.View("x/dogfood/types", "GenesisState.Validate"); dv == nil {
 		r.bad("C18.R8", "valset-bound", "-", "anchor", "dogfood GenesisState.Validate not found")
